@@ -2,11 +2,14 @@
 // fast/builtin.go callRecover/callPanic; fast/statement.go Comp.Defer).
 //
 // Random call trees: functions f0..fK, each `func fN() (r int)`, whose bodies are sequences of
-//   emit(k) | r = k | r += k | panic(v) | x := fJ(); emit(x) (J < N) | defer func() { ... }() (closure over r, may itself
-//   defer, panic, recover, call) | defer fJ() | defers in a loop | recover() directly | recover() one call deeper (helper).
+//
+//	emit(k) | r = k | r += k | panic(v) | x := fJ(); emit(x) (J < N) | defer func() { ... }() (closure over r, may itself
+//	defer, panic, recover, call) | defer fJ() | defers in a loop | recover() directly | recover() one call deeper (helper).
+//
 // (S) the same source compiled by the Go toolchain is the DIRECT ORACLE: event trace, result, escaping panic value.
 // (M) every tree is also written as a term of Verif.C07.Model: the reference semantics and the model of gomacro's
-//     executor state machine (Panic, PanicFun, DeferOfFun, IsDefer/StartDefer) must both reproduce the observation.
+//
+//	executor state machine (Panic, PanicFun, DeferOfFun, IsDefer/StartDefer) must both reproduce the observation.
 package main
 
 import (
@@ -31,19 +34,19 @@ type act struct {
 }
 
 type prog struct {
-	Idx   int     `json:"idx"`
-	Funcs [][]act `json:"-"`
-	Src   string  `json:"src"`
-	Coq   string  `json:"-"`
+	Idx   int            `json:"idx"`
+	Funcs [][]act        `json:"-"`
+	Src   string         `json:"src"`
+	Coq   string         `json:"-"`
 	Feat  map[string]int `json:"-"`
 	// structural classification
 	NestedDeferInDeferred bool `json:"nested_defer_in_deferred"`
 }
 
 type gen struct {
-	r      *vh.Rng
-	nextV  int
-	feat   map[string]int
+	r           *vh.Rng
+	nextV       int
+	feat        map[string]int
 	avoidNested bool
 }
 
@@ -247,7 +250,9 @@ func oracle(a *vh.Args, progs []*prog) (map[int]obs, error) {
 	}
 	os.WriteFile(filepath.Join(dir, "go.mod"), []byte("module oracle\n\ngo 1.18\n"), 0o644)
 	env := append(os.Environ(), "GOFLAGS=-mod=mod", "GOPROXY=off", "GOSUMDB=off", "GOTOOLCHAIN=local", "CGO_ENABLED=0")
-	cmd := exec.Command("go", "build", "-o", "oracle.bin", ".")
+	// -l: without it go1.23 inlines the helper rec() into a deferred function and recover() then wrongly succeeds
+	// "one call deeper" (optimised and -N -l builds of the same program disagree; the Go spec says nil)
+	cmd := exec.Command("go", "build", "-gcflags=-N -l", "-o", "oracle.bin", ".")
 	cmd.Dir, cmd.Env = dir, env
 	if out, err := cmd.CombinedOutput(); err != nil {
 		return nil, fmt.Errorf("go build of oracle failed: %v\n%s", err, string(out))
